@@ -5,10 +5,15 @@
    Proved about the model: value -> XML -> value is the identity, for every class table whose classes bind their
    members to pairwise different slots and for every value in normal form, at any nesting depth and under any
    xsi:type substitution; the second write is byte-identical; absent members read as the declared default.
+   Instances with a history (XmlStruct/Instance.v): reading into an instance that already holds values is reading
+   into a fresh one (and any store policy that keeps a previous value is refuted); a write leaves the value, the
+   document the value was read from and every earlier written document as they were, and a second write yields
+   the same document (and the lxml "move" semantics of extend() is refuted).
    The generated table is checked to satisfy the hypothesis (computed).  lxml serialisation, namespace prefixes and
    XSD validation themselves are not modelled (the harness checks them on the implementation). *)
 From Coq Require Import List ZArith NArith Bool.
 From SDC Require Import XmlStruct.Model XmlStruct.Proofs XmlStruct.Gen_Schema.
+From SDC Require Import XmlStruct.Instance XmlStruct.InstanceProofs.
 Import ListNotations.
 
 (* every property kind: writing a valid value into a node whose slot is empty and reading it gives that value *)
@@ -70,6 +75,73 @@ Proof.
 Qed.
 Print Assumptions C05_duplicate_slot_refuted.
 
+(* ---- instances with a history: update_from_node on a populated instance, repeated writes ---- *)
+
+(* update_from_node into an instance that already holds ANY values gives what from_node gives (fresh instance) *)
+Theorem C05_populated_read_is_fresh_read : forall decf ps olds t, length olds = length ps ->
+  update_all keep_impl decf ps olds t = read_all decf ps t.
+Proof. exact update_all_never. Qed.
+Print Assumptions C05_populated_read_is_fresh_read.
+
+(* ... hence: write a value, read the document into any instance of its class - the value, nothing of the old content *)
+Theorem C05_written_document_into_any_instance : forall classes, (forall c, In c classes -> wf_slots c) ->
+  forall n cid fs tag t olds, valid classes n (VStruct cid fs) -> enc classes n (VStruct cid fs) tag = Some t ->
+  length olds = length fs -> dec_into keep_impl classes n cid olds t = Some (VStruct cid fs).
+Proof. exact written_into_any_instance. Qed.
+Print Assumptions C05_written_document_into_any_instance.
+
+(* a descriptor that skips the assignment when the XML has no value (the list properties before the repair; "do not
+   overwrite with None" in the base class) keeps a stale value: for EVERY member whose attribute / element may be
+   absent there is an instance content for which the result differs from reading into a fresh instance *)
+Theorem C05_keeping_old_values_refuted : forall keep decf p n t, keep p = true -> p_name p = Some n ->
+  free (slot_of p) t -> reads_none_when_absent p = true ->
+  exists old, update_member keep decf p old t <> read_member decf p t.
+Proof. exact keep_refuted_absent. Qed.
+Print Assumptions C05_keeping_old_values_refuted.
+
+(* ... although that policy, restricted to the list kinds, is invisible on freshly constructed instances *)
+Theorem C05_list_policy_invisible_on_fresh_instances : forall decf ps t,
+  update_all keep_lists decf ps (map init_val ps) t = read_all decf ps t.
+Proof. exact update_all_lists_fresh. Qed.
+Print Assumptions C05_list_policy_invisible_on_fresh_instances.
+
+(* writing is pure: the new document holds the content of the value; the value and all documents that exist (the
+   one the value was read from, the ones written before) are what they were *)
+Theorem C05_write_pure : forall w,
+  render (step attach_impl w OWrite) = (fst (render w) ++ [snd (render w)], snd (render w)).
+Proof. intros w. apply write_pure. Qed.
+Print Assumptions C05_write_pure.
+
+(* writing the same value again yields the same document *)
+Theorem C05_second_write_identical_document : forall w,
+  fst (render (step attach_impl (step attach_impl w OWrite) OWrite)) = fst (render w) ++ [snd (render w); snd (render w)] /\
+  snd (render (step attach_impl (step attach_impl w OWrite) OWrite)) = snd (render w).
+Proof. exact second_write_identical_docs. Qed.
+Print Assumptions C05_second_write_identical_document.
+
+(* no sequence of assignments, reads and writes changes a document that exists *)
+Theorem C05_documents_never_change : forall ops w d, (d < length (w_docs w))%nat ->
+  nth d (fst (render (exec attach_impl w ops))) [] = nth d (fst (render w)) [].
+Proof. exact documents_never_change. Qed.
+Print Assumptions C05_documents_never_change.
+
+(* the value read from a written document - after whatever happened since - is the value written *)
+Theorem C05_read_back_after_later_operations : forall ops w,
+  snd (render (step attach_impl (exec attach_impl (step attach_impl w OWrite) ops) (ORead (length (w_docs w)))))
+  = snd (render w).
+Proof. exact read_back_after. Qed.
+Print Assumptions C05_read_back_after_later_operations.
+
+(* with container.extend(value) instead of copies (lxml re-parents the elements): the second write empties the first
+   document; the first write of a value that was read from a document empties that document *)
+Theorem C05_move_refuted : forall b,
+  (let w1 := exec Move world0 [ONew [b]; OWrite] in
+   fst (render w1) = [[b]] /\ fst (render (step Move w1 OWrite)) = [[]; [b]]) /\
+  (let w0 := exec Move world0 [OParse [b]] in
+   fst (render w0) = [[b]] /\ fst (render (exec Move w0 [ORead 0%nat; OWrite])) = [[]; [b]]).
+Proof. intros b. split; [apply move_refuted|apply move_source_refuted]. Qed.
+Print Assumptions C05_move_refuted.
+
 (* non-vacuity: a nested value with an extension, an xsi:type substitution, empty strings, a defaulted member *)
 Example C05_nonvacuous :
   forallb wf_class demo_classes = true /\
@@ -79,3 +151,16 @@ Proof.
   split; [exact demo_wf|]. split; [|exact demo_absent].
   destruct demo_roundtrip as (t & E & D & _). eauto.
 Qed.
+
+(* non-vacuity of the history theorems: an optional word-list element (wsd XAddrs) absent in the XML, instance holds
+   [7]: the repaired policy stores [], the old list policy keeps [7]; an extension written twice *)
+Example C05_history_nonvacuous :
+  let p := mkProp KTextList (Some 30%N) COther true false false 0%N false in
+  let t := Node 100%N [] None [] in
+  update_member keep_impl (fun _ _ => None) p (VWords [7%Z]) t = Some (VWords []) /\
+  update_member keep_lists (fun _ _ => None) p (VWords [7%Z]) t = Some (VWords [7%Z]) /\
+  run_own [ONew [Node 99%N [] (Some [6%Z]) []]; OWrite; OWrite]
+  = [([], [Node 99%N [] (Some [6%Z]) []]);
+     ([[Node 99%N [] (Some [6%Z]) []]], [Node 99%N [] (Some [6%Z]) []]);
+     ([[Node 99%N [] (Some [6%Z]) []]; [Node 99%N [] (Some [6%Z]) []]], [Node 99%N [] (Some [6%Z]) []])].
+Proof. repeat split. Qed.
